@@ -128,12 +128,13 @@ TimeToIndex(z, tf, s, devs) ==
 IndexToTime(z, tf, y, idx, devs) ==
   IF tf = DaySec THEN AbsOfLocal(z, YearStartLocal(y) + DaySec * (idx - 1 + Shift(tf, devs)))   \* t0.AddDate(0, 0, index)
   ELSE YearStartAbs(z, y) + tf * (idx - 1)
-\* io.IndexToOffset / io.TimeToOffset
+\* io.IndexToOffset; io.TimeToOffset and io.EpochToOffset are the same formula applied to TimeToIndex
 IndexToOffset(idx, rl) == (idx - 1) * rl + Headersize
-TimeToOffset(z, tf, s, rl, devs) == (TimeToIndex(z, tf, s, devs) - 1) * rl + Headersize
+TimeToOffset(z, tf, s, rl, devs) == IndexToOffset(TimeToIndex(z, tf, s, devs), rl)
 \* io.FileSize(tf, year, recordSize): the year length is taken in time.Local (zone zl), not in the configured zone
 YearLen(zl, y) == YearStartAbs(zl, y + 1) - YearStartAbs(zl, y)
-FileSize(zl, tf, y, rl) == Headersize + (YearLen(zl, y) \div tf) * rl
+FileSizeOf(slots, rl) == Headersize + slots * rl
+FileSize(zl, tf, y, rl) == FileSizeOf(YearLen(zl, y) \div tf, rl)
 
 \* ---- abstract side: the intervals of a year file ----
 \* interval k (0-based) of year y: tf-long pieces counted from the local start of the year; the daily
@@ -156,7 +157,7 @@ IxObs(z, tf, y, k, devs) ==
   IN  [s0 |-> s0, e1 |-> e1, is |-> is, ie |-> ie,
        bs |-> IndexToTime(z, tf, y, is, devs), be |-> be, ib |-> TimeToIndex(z, tf, be, devs),
        ys |-> YearOf(Local(z, s0)), ye |-> YearOf(Local(z, e1)),
-       slots |-> YearLen(FileZone, y) \div tf]                   \* FileSize = Headersize + slots * recordLen
+       slots |-> YearLen(FileZone, y) \div tf]                   \* FileSize(FileZone, tf, y, rl) = FileSizeOf(slots, rl)
 \* every timestamp of the interval maps to one slot of its own year's file
 OneSlot(y, o) == o.ys = y /\ o.ye = y /\ o.is = o.ie
 \* slot and interval start convert back and forth; since the interval start is recovered from the slot,
@@ -166,7 +167,7 @@ RoundTrip(o) == o.bs = o.s0 /\ o.be = o.s0 /\ o.ib = o.ie
 SlotBijection(tf, k, o, devs) == o.is = k + 1 - Shift(tf, devs)
 \* Headersize <= offset and offset + recordLen <= FileSize, for every record length
 SlotInDataArea(o) == \A rl \in RecLens : LET off == IndexToOffset(o.is, rl)
-                                        IN  Headersize <= off /\ off + rl <= Headersize + o.slots * rl
+                                        IN  Headersize <= off /\ off + rl <= FileSizeOf(o.slots, rl)
 IndexProp(tf, y, k, o, devs) == OneSlot(y, o) /\ RoundTrip(o) /\ SlotBijection(tf, k, o, devs) /\ SlotInDataArea(o)
 \* the known behaviour breaks the property only through the listed deviation, only where its guard fires
 IndexGuard(tf, k) == tf = DaySec /\ k = 0 /\ "DailyIndexFromZero" \in Deviations
